@@ -24,7 +24,7 @@ CONFIG = {"quick": {"shards": 8, "timeout_s": 900, "cases": 64},
           "thorough": {"shards": 16, "timeout_s": 3000, "cases": 1600}}
 REQUIRED_COUNTERS = ["written_values_p2g", "written_values_g2p", "written_values_g2g", "written_values_vectorised", "round_trip_checks",
                      "member_results_vs_standalone_gas", "member_results_vs_standalone_power", "converged_flag_checks", "infeasible_member_checks",
-                     "timeseries_steps_compared", "multinets_with_member_controllers"]
+                     "timeseries_steps_compared", "multinets_with_member_controllers", "power_led_g2p_vectorised"]
 
 
 def gen_cases(tier, seed):
@@ -91,13 +91,19 @@ def run_case(case, ctx):
         expected.append(("g2p", "power", "sgen", sg, "p_mw", g1.sink.at[sk, "mdot_kg_per_s"] * g1.sink.at[sk, "scaling"] * h1 * 3600 / 1e3 * eff_g2p, k2 > 1))
     # ---- G2P power-led: sgen -> sink
     if rng.random() < 0.5:
-        sg_led = int(ppow.create_sgen(pw, int(rng.choice(buses)), p_mw=float(rng.uniform(0.02, 0.2)), scaling=float(rng.choice([1.0, 0.6]))))
-        sk_led = int(pp.create_sink(g1, int(rng.choice(jg[1:])), 0.0, name="g2p_led_sink"))
+        # scalar or vectorised; the index numbers of the partners differ and their pairing is not ascending
+        k3 = int(rng.integers(1, 4))
+        sg_led = [int(ppow.create_sgen(pw, int(rng.choice(buses)), p_mw=float(rng.uniform(0.02, 0.2)), scaling=float(rng.choice([1.0, 0.6])))) for _ in range(k3)]
+        sk_led = [int(pp.create_sink(g1, int(rng.choice(jg[1:])), 0.0, name="g2p_led_sink%d" % i)) for i in range(k3)]
+        sk_led = [sk_led[i] for i in rng.permutation(k3)]
         eff_led = float(rng.uniform(0.3, 0.65))
-        G2PControlMultiEnergy(mn, sg_led, sk_led, efficiency=eff_led, name_power_net="power", name_gas_net="gas", calc_gas_from_power=True,
-                              order=int(rng.integers(0, 3)))
+        G2PControlMultiEnergy(mn, sg_led[0] if k3 == 1 else sg_led, sk_led[0] if k3 == 1 else sk_led, efficiency=eff_led, name_power_net="power",
+                              name_gas_net="gas", calc_gas_from_power=True, order=int(rng.integers(0, 3)))
         nctrl += 1
-        expected.append(("g2p", "gas", "sink", sk_led, "mdot_kg_per_s", pw.sgen.at[sg_led, "p_mw"] * pw.sgen.at[sg_led, "scaling"] / (h1 * 3600 / 1e3 * eff_led), False))
+        if k3 > 1:
+            obs.count("power_led_g2p_vectorised")
+        for sg_, sk_ in zip(sg_led, sk_led):
+            expected.append(("g2p", "gas", "sink", sk_, "mdot_kg_per_s", pw.sgen.at[sg_, "p_mw"] * pw.sgen.at[sg_, "scaling"] / (h1 * 3600 / 1e3 * eff_led), k3 > 1))
     # ---- G2G
     if two_gas:
         h2 = hhv_of(f2)
